@@ -70,7 +70,9 @@ def h_opa(B, n=5, p=2, npca=2, tau_max=1, names=None, flags=None, witness_scale=
             B.eq(f"<filter pattern {i + 1}, OPP {i + 1}> equals <filter pattern 1, OPP 1>", VW[i, i], VW[0, 0])
     for i in range(k):
         tot, c0 = _acf_sum(P[:, i], n, tau_max)
-        B.eq(f"decorrelation time {i + 1} * c(0) == trapezoidal lag sum of its own score series", lam[i] * c0, tot, scale_of=[P, P])
+        # magnitude and sign separately: open finding F15 (|lambda| reported for a negative lag sum) concerns the sign only
+        B.eq(f"decorrelation time {i + 1}: (lambda * c(0))^2 == (trapezoidal lag sum of its own score series)^2", (lam[i] * c0) * (lam[i] * c0), tot * tot, scale_of=[P, P, P, P])
+        B.ge(f"decorrelation time {i + 1}: lambda * c(0) has the sign of the trapezoidal lag sum", lam[i] * c0 * tot, 0.0, scale_of=[P, P, P, P])
         try:
             nz = bool(np.any(np.asarray(B.value(P[:, i])) != 0))
         except Exception:  # noqa - no witness on this path
@@ -89,6 +91,7 @@ def configs(tier):
     add("OPA|n5|tau1", n=5, tau_max=1)
     add("OPA|n6|tau2", n=6, tau_max=2)
     add("OPA|n5|tau1|names=s,f", n=5, tau_max=1, names=("s", "f"))
+    add("OPA|n7|tau2 (n//4 < tau_max <= n/3)", n=7, tau_max=2)
     add("OPA|n5|tau1|witness scale 1e-7", n=5, tau_max=1, witness_scale=1e-7)
     add("OPA|n5|tau1|center=False", n=5, tau_max=1, flags={"center": False})  # the series are anomalies whatever the model's own centring flag
     if tier == "thorough":
